@@ -261,6 +261,11 @@ def model_lane(ck, wd, tier, apa_invs):
                 ck.note('model-level lead: Apalache W=32 %s counterexample %s (replayed on the library)' % (inv, res.cex))
                 if res.cex and 'a' in res.cex and 'b' in res.cex:
                     leads.append((res.cex['a'], res.cex['b']))
+                    # obligations with a fixed second factor: the counterexample's operand pair is (a, that constant)
+                    mk = {'_3': 3, '_255': 255, '_F': (1 << 32) + 1}
+                    for suf, kconst in mk.items():
+                        if inv.endswith(suf):
+                            leads.append((res.cex['a'], kconst))
     return leads
 
 
